@@ -97,7 +97,7 @@ func (l *lworld) exec(k *jCall) (ok bool, err error) {
 	if err != nil {
 		return false, err
 	}
-	k.Caller = hexOf(common.AddressFromVmCode(tx.Payload.(*payload.InvokeCode).Code))
+	k.Stack = []string{hexOf(common.AddressFromVmCode(tx.Payload.(*payload.InvokeCode).Code))}
 	b, err := l.k.MakeBlock([]*types.Transaction{tx})
 	if err != nil {
 		return false, err
@@ -162,7 +162,7 @@ func runLedger(c *hx.Ctx, n int) {
 		okCalls := 0
 		for i := 0; i < nCalls; i++ {
 			k := g.next(before, &now, true)
-			k.PreExec, k.Caller = false, ""
+			k.PreExec, k.Caller, k.Stack = false, "", nil
 			for j := range k.States {
 				k.States[j].Value = sane(k.V2, k.States[j].Value)
 			}
@@ -230,7 +230,7 @@ func runLedger(c *hx.Ctx, n int) {
 		}
 		c.Count("mode:ledger")
 		if okCalls >= 2 {
-			c.Nontrivial(fmt.Sprintf("ledger-%d-%d-%s", c.Seed, s, seq.Calls[0].Caller))
+			c.Nontrivial(fmt.Sprintf("ledger-%d-%d-%s", c.Seed, s, seq.Calls[0].Stack[0]))
 		}
 		c.Case(fmt.Sprintf("CSeq %d %s %s %s", seq.Net, coqState(d0), "["+strings.Join(steps, ";\n   ")+"]", coqState(before)), seq)
 	}
